@@ -143,7 +143,7 @@ func (m *model) addN(k, v, n int) {
 		m.present[k] = true
 		m.n++
 	}
-	m.sum[k] += v * n
+	m.sum[k] += v * n // hot-key family runs on int-valued universes only (identity encoding)
 }
 
 // feedPlan returns the hot counts before and after the cold keys.
@@ -168,7 +168,7 @@ func runHotFrame(c hotCase, hf *hotFrames, st *hotStats) (class, what string) {
 	if c.single {
 		scratch = 1
 	}
-	cf := exec.VerifC09MakeCombiningFrame(kd.typ, addFunc, 8, scratch)
+	cf := exec.VerifC09MakeCombiningFrame(kd.typ, kd.comb, 8, scratch)
 	var m model
 	feedHot := func(x int) {
 		m.addN(hotKey, 1, x)
@@ -240,7 +240,7 @@ func runHotCombiner(c hotCase, hf *hotFrames, st *hotStats) (class, what string)
 	if c.spill {
 		target = 1
 	}
-	cb, err := exec.VerifC09NewCombiner(kd.typ, "c09", addFunc, target)
+	cb, err := exec.VerifC09NewCombiner(kd.typ, "c09", kd.comb, target)
 	if err != nil {
 		ev.Fatal("newCombiner: %v", err)
 	}
